@@ -303,6 +303,7 @@ class Check:
         self.t0 = time.time()
         self.violations = []          # (replay_path, has_input)
         self.proof_breaks = []        # names of theorems / builds / correspondences that no longer check
+        self.fact_breaks = []         # (group, lemma) of translator facts that changed
         self.known_printed = []
         self.obligations = 0
         self.discharged = 0
@@ -315,8 +316,36 @@ class Check:
         self.stale_known = []
 
     # -- proof side ---------------------------------------------------------
-    def prove(self, targets, prop_files, allow=()):
-        """Builds the .vo targets and re-checks every Properties.v; counts obligations."""
+    def prove(self, targets, prop_files, allow=(), facts=()):
+        """Regenerates the translator facts, builds the .vo targets and re-checks every
+        Properties.v; counts obligations. `facts`: groups of tools/translate.py whose
+        agreement lemmas (Expected/FactsAgree<g>.v) belong to this property."""
+        rc, out = sh([sys.executable, os.path.join(ROOT, "tools", "translate.py")], timeout=300)
+        if rc != 0:
+            raise FrameworkError("translator failed: " + out[-500:])
+        for g in facts:
+            ap = "theories/Expected/FactsAgree%s.v" % g
+            src = open(os.path.join(COQ, ap)).read()
+            lemmas = re.findall(r"^Lemma\s+(\w+)", src, re.M)
+            self.obligations += len(lemmas)
+            with Lock("coq"):
+                # dependencies first (Generated may have changed), then the agreement file itself
+                ok_dep, out_dep = True, ""
+            okf, outf = coq_make([ap + "o"])
+            self.checker_cmds.append("python3 tools/translate.py ; cd coq && make " + ap + "o")
+            if okf:
+                self.discharged += len(lemmas)
+                self.trusted.append("regenerated facts %s agree with Expected/Facts%s.v (reflexivity): %s" % (g, g, ", ".join(lemmas)))
+            else:
+                m = re.search(r"File \"[^\"]*FactsAgree%s.v\", line (\d+)" % g, outf)
+                which = "?"
+                if m:
+                    ln = int(m.group(1))
+                    before = src.split("\n")[:ln]
+                    which = [x for x in re.findall(r"Lemma\s+(\w+)", "\n".join(before))][-1:] or ["?"]
+                    which = which[0]
+                self.fact_breaks.append((g, which))
+                self.proof_breaks.append("translator fact changed: %s (Generated/Facts%s.v no longer equals Expected/Facts%s.v)" % (which, g, g))
         probs = audit_coq()
         if probs:
             self.proof_breaks.append("audit: " + "; ".join(probs[:10]))
@@ -391,7 +420,7 @@ class FrameworkError(Exception):
     """The machinery itself failed (model side died, tool missing): exit 2, never a VIOLATION."""
 
 
-def run_programs(th, programs, mode="run", tag="batch", timeout=600, per_program_timeout=None):
+def run_programs(th, programs, mode="run", tag="batch", timeout=600, per_program_timeout=None, mem_limit=None):
     """Runs (name, opts, source) programs through `th run` / `th compile` in a
     worker process. A program that kills the worker (stack overflow, abort,
     timeout) gets status 'died' with the exit status; the worker is restarted
@@ -409,7 +438,10 @@ def run_programs(th, programs, mode="run", tag="batch", timeout=600, per_program
     skip = 0
     names = [p[0] for p in programs]
     while skip < len(programs):
-        rc, out = sh([th, mode, inp, outp, str(skip)], timeout=timeout)
+        cmd = [th, mode, inp, outp, str(skip)]
+        if mem_limit:
+            cmd = ["prlimit", "--as=%d" % mem_limit] + cmd
+        rc, out = sh(cmd, timeout=per_program_timeout or timeout)
         done = 0
         last_begin = None
         if os.path.exists(outp):
